@@ -367,13 +367,51 @@ def rule_history_record(ctx):
               bad_what="make_move does not record the key of the position being left exactly once before modifying the board")
 
 
-RULES = [("revocation-table", rule_revocation_table), ("rights-monotone", rule_rights_monotone), ("clock", rule_clock), ("ep", rule_ep),
+def rule_accessors(ctx):
+    """What the search reads is what the bookkeeping wrote: `position_reached(k)` is membership of k in the whole list of
+    recorded keys, `get_halfmove_clock()` is the clock of the top history record."""
+    ix = ctx.ix
+    b = ctx.body("board::Board::position_reached")
+    r = mir.strip_copies(ctx.sym(b).local(0))
+    ok = False
+    if r[0] == "call" and r[1].endswith("<impl [T]>::contains") and len(r[2]) == 2:
+        hay, needle = expr_str(r[2][0]), mir.strip_refs(r[2][1])
+        ok = "position_history" in hay and needle == ("arg", b.local_name(2)) and not any(
+            isinstance(x, tuple) and x[0] in ("index", "subslice") or isinstance(x, tuple) and x[0] == "call" and x[1].split("::")[-1] in ("get", "split_at", "first", "last", "split_first", "split_last", "windows", "chunks")
+            for x in walk(r[2][0]))
+    elif r[0] == "call" and r[1].split("::")[-1] == "any" and "Iterator" in r[1] and len(r[2]) == 2:
+        src = mir.strip_copies(r[2][0])
+        # iter() (possibly reversed) over the whole vector, closure = `|k| *k == position`
+        while src[0] == "call" and src[1].split("::")[-1] in ("rev", "copied", "cloned") and len(src[2]) == 1:
+            src = mir.strip_copies(src[2][0])
+        whole = src[0] == "call" and src[1].split("::")[-1] == "iter" and "position_history" in expr_str(src) and len(src[2]) == 1
+        clo = r[2][1]
+        eqc = False
+        if clo[0] == "closure" and clo[1] in ix.bodies:
+            cb = ix.bodies[clo[1]]
+            cr = mir.strip_copies(mir.Sym(cb, ix).local(0))
+            eqc = cr[0] == "call" and ("PartialEq" in cr[1] and cr[1].endswith("eq")) and len(cb.blocks) <= 3 and len(clo[2]) == 1 and mir.strip_refs(clo[2][0]) == ("arg", b.local_name(2))
+            ctx.functions.add(clo[1])
+        ok = whole and eqc
+    ctx.check(ok, "position_reached:is-membership", "position_reached(k) = position_history contains k (the whole list)", b.where(0),
+              bad_what="position_reached returns `%s`: not membership of its argument in the whole position_history (a window, a prefix or another key makes the search miss or invent repetitions)" % expr_str(r)[:160])
+    g = ctx.body("board::Board::get_halfmove_clock")
+    v = mir.strip_copies(ctx.sym(g).local(0))
+    txt = expr_str(v)
+    ok = v[0] == "field" and v[-1] == "halfmove_clock" and "::last(" in txt and "history" in txt and "position_history" not in txt and len([x for x in walk(v) if isinstance(x, tuple) and x[0] == "bin"]) == 0
+    ctx.check(ok, "get_halfmove_clock:top-record", "get_halfmove_clock() = history.last().halfmove_clock", g.where(0),
+              bad_what="get_halfmove_clock returns `%s`: not the clock of the top history record" % txt[:160])
+
+
+RULES = [("accessors", rule_accessors), ("revocation-table", rule_revocation_table), ("rights-monotone", rule_rights_monotone), ("clock", rule_clock), ("ep", rule_ep),
          ("fullmove", rule_fullmove), ("placement", rule_placement), ("history-record", rule_history_record)]
 # "remembers exactly the earlier positions" is about keys: the key recorded for a position must be the key of that position
 # (C04 pairing rules), also after the make/unmake probes of move generation
 RULES += engine.premise_rules("c04", ["piece-pair", "turn-pair", "ep-pair", "castle-pair", "castle-revert"])
 # the bookkeeping reads the move's flags: the move record carries what the generator put into it
-RULES += engine.premise_rules("c01", ["ply-builder"])
+RULES += engine.premise_rules("c01", ["ply-builder", "capture-src"])
+# "from the standard start or any valid FEN": the first history record (clock, rights) is what the FEN said
+RULES += engine.premise_rules("c07", ["fields", "history", "build"])
 
 
 def run(tier):
